@@ -492,7 +492,8 @@ def check_expand_pair_all(cx: Cx, ob: Ob) -> None:
         names = [(k, f) for k, f, _, _ in shape]
         from ..rules import guard_atoms
 
-        derived = [seg[1] for seg in segs if seg[0] != "elem" and any(op(x) == "attr" and x[1] == me and x[2] not in ("records",) for x in subterms(seg[1]))]
+        ci_ = cx.model.cls(CONV, ob.id)
+        derived = [seg[1] for seg in segs if seg[0] != "elem" and any(op(x) == "attr" and x[1] == me and x[2] not in ("records",) and cx.model.find_method(ci_, x[2]) is None for x in subterms(seg[1]))]
         if derived and any(f == "?" for _, f in names):
             # the URI prefixes are taken from a table of the converter's own (derived state: C05-D7 asks that _index
             # maintains it), not from the record: that the table lists the record's URI prefixes, canonical first,
